@@ -74,7 +74,14 @@ type CallEvent struct {
 }
 
 type State struct {
-	Cmds   []string          // path-specific declarations, definitions and assumptions, in order
+	Cmds   *cmdNode          // path-specific declarations, definitions and assumptions (persistent list)
+	WM0    Term              // allocation watermark at function entry
+	NonNil map[string]bool   // pointer terms already known (checked) to be non-nil on this path
+	Known  *knownSet         // boolean terms assumed on this path (persistent set by text)
+	Log    map[string]*logNode // per heap array: chain of point writes since the last opaque update
+	Seq    int               // allocation sequence number
+	FreshSeq map[string]int  // fresh ref -> sequence number of its allocation
+	Older    map[string]int  // term -> sequence number at which the reference was known to exist
 	Heap   map[string]string // heap array name -> current symbol
 	Fwd    map[string]Val    // store-to-load forwarding: array prefix + "@" + ref [+ "#" idx]
 	Frames []*Frame
@@ -96,8 +103,25 @@ type State struct {
 }
 
 func (s *State) clone() *State {
-	t := &State{AllocBase: s.AllocBase, AllocN: s.AllocN, StorageOps: s.StorageOps}
-	t.Cmds = append(make([]string, 0, len(s.Cmds)+16), s.Cmds...)
+	t := &State{AllocBase: s.AllocBase, AllocN: s.AllocN, StorageOps: s.StorageOps, WM0: s.WM0, Known: s.Known}
+	t.Cmds = s.Cmds
+	t.Seq = s.Seq
+	t.Log = make(map[string]*logNode, len(s.Log))
+	for k, v := range s.Log {
+		t.Log[k] = v
+	}
+	t.FreshSeq = make(map[string]int, len(s.FreshSeq))
+	for k, v := range s.FreshSeq {
+		t.FreshSeq[k] = v
+	}
+	t.Older = make(map[string]int, len(s.Older))
+	for k, v := range s.Older {
+		t.Older[k] = v
+	}
+	t.NonNil = make(map[string]bool, len(s.NonNil))
+	for k, v := range s.NonNil {
+		t.NonNil[k] = v
+	}
 	t.Heap = make(map[string]string, len(s.Heap))
 	for k, v := range s.Heap {
 		t.Heap[k] = v
@@ -127,7 +151,7 @@ func (s *State) clone() *State {
 
 // snapshot is a cheap frozen copy used for old(): only heap view matters.
 func (s *State) snapshot() *State {
-	t := &State{AllocBase: s.AllocBase, AllocN: s.AllocN}
+	t := &State{AllocBase: s.AllocBase, AllocN: s.AllocN, WM0: s.WM0, Cmds: s.Cmds}
 	t.Heap = make(map[string]string, len(s.Heap))
 	for k, v := range s.Heap {
 		t.Heap[k] = v
@@ -137,8 +161,41 @@ func (s *State) snapshot() *State {
 		t.Fwd[k] = v
 	}
 	t.Fresh = s.Fresh
+	t.FreshSeq = s.FreshSeq
+	t.Older = s.Older
+	t.Seq = s.Seq
+	t.Log = make(map[string]*logNode, len(s.Log))
+	for k, v := range s.Log {
+		t.Log[k] = v
+	}
 	t.Clock = append([]Term(nil), s.Clock...)
 	return t
+}
+
+// cmdNode: persistent (shared-prefix) list of SMT commands.
+type cmdNode struct {
+	parent *cmdNode
+	line   string
+	n      int
+}
+
+func (s *State) addCmd(line string) {
+	n := 1
+	if s.Cmds != nil {
+		n = s.Cmds.n + 1
+	}
+	s.Cmds = &cmdNode{parent: s.Cmds, line: line, n: n}
+}
+
+func (c *cmdNode) lines() []string {
+	if c == nil {
+		return nil
+	}
+	out := make([]string, c.n)
+	for p := c; p != nil; p = p.parent {
+		out[p.n-1] = p.line
+	}
+	return out
 }
 
 func (s *State) top() *Frame { return s.Frames[len(s.Frames)-1] }
@@ -165,24 +222,94 @@ func (c *Ctx) note(m map[string]bool, s string) { m[s] = true }
 // fresh declares a new path-local constant.
 func (c *Ctx) fresh(st *State, prefix, sort string) Term {
 	name := prefix + "~" + strconv.Itoa(c.uniq())
-	st.Cmds = append(st.Cmds, "(declare-const "+sym(name)+" "+sort+")")
+	st.addCmd("(declare-const " + sym(name) + " " + sort + ")")
 	return Term{sym(name), sort}
+}
+
+type logNode struct {
+	parent *logNode
+	ref    Term
+	val    Term
+	after  string // array symbol after this write
+	before string // array symbol before this write
+}
+
+// distinct: the two reference terms certainly denote different objects.
+func (st *State) distinct(a, b Term) bool {
+	if a.S == b.S {
+		return false
+	}
+	if x, ok := litInt(a); ok {
+		if y, ok2 := litInt(b); ok2 {
+			return x != y
+		}
+	}
+	fa, fb := st.Fresh[a.S], st.Fresh[b.S]
+	if fa && fb {
+		return true
+	}
+	if fa {
+		if o, ok := st.Older[b.S]; ok && o < st.FreshSeq[a.S] {
+			return true
+		}
+		if isLit(b, "0") {
+			return true
+		}
+	}
+	if fb {
+		if o, ok := st.Older[a.S]; ok && o < st.FreshSeq[b.S] {
+			return true
+		}
+		if isLit(a, "0") {
+			return true
+		}
+	}
+	return false
+}
+
+func (st *State) markOlder(t Term) {
+	if _, lit := litInt(t); lit {
+		return
+	}
+	if st.Fresh[t.S] {
+		return
+	}
+	if _, ok := st.Older[t.S]; !ok {
+		st.Older[t.S] = st.Seq
+	}
+}
+
+type knownSet struct {
+	parent *knownSet
+	key    string
+}
+
+func (k *knownSet) has(s string) bool {
+	for p := k; p != nil; p = p.parent {
+		if p.key == s {
+			return true
+		}
+	}
+	return false
 }
 
 func (st *State) assume(t Term) {
 	if isLit(t, "true") {
 		return
 	}
+	if len(t.S) < 400 {
+		st.Known = &knownSet{parent: st.Known, key: t.S}
+	}
 	if isLit(t, "false") {
 		st.Dead = true
 	}
-	st.Cmds = append(st.Cmds, "(assert "+t.S+")")
+	st.addCmd("(assert " + t.S + ")")
 }
 
 // define introduces a name for a (possibly large) term.
 func (c *Ctx) define(st *State, prefix string, t Term) Term {
 	name := prefix + "~" + strconv.Itoa(c.uniq())
-	st.Cmds = append(st.Cmds, "(define-fun "+sym(name)+" () "+t.Sort+" "+t.S+")")
+	st.addCmd("(define-fun " + sym(name) + " () " + t.Sort + " " + t.S + ")")
 	return Term{sym(name), t.Sort}
 }
 
@@ -206,12 +333,14 @@ func (c *Ctx) heapInit(name, sort string) Term {
 func (c *Ctx) heapSet(st *State, name string, t Term) {
 	d := c.define(st, "H!"+name, t)
 	st.Heap[name] = d.S
+	delete(st.Log, name)
 }
 
 // havocArray replaces a heap array by a fresh one.
 func (c *Ctx) havocArray(st *State, name, sort string) {
 	f := c.fresh(st, "Hh!"+name, sort)
 	st.Heap[name] = f.S
+	delete(st.Log, name)
 	st.Dirty[name] = true
 	for k := range st.Fwd {
 		if strings.HasPrefix(k, name+"@") {
@@ -221,8 +350,22 @@ func (c *Ctx) havocArray(st *State, name, sort string) {
 }
 
 // field arrays: one array per scalar component, Int -> sort.
+// readComp resolves the read through the chain of point writes where the
+// written reference is syntactically equal to / certainly different from ref.
 func (c *Ctx) readComp(st *State, name string, sort string, ref Term) Term {
-	return Select(c.heapCur(st, name, arrSort(SInt, sort)), ref, sort)
+	as := arrSort(SInt, sort)
+	for n := st.Log[name]; n != nil; n = n.parent {
+		if n.ref.S == ref.S {
+			return n.val
+		}
+		if !st.distinct(n.ref, ref) {
+			return Select(Term{n.after, as}, ref, sort)
+		}
+		if n.parent == nil {
+			return Select(Term{n.before, as}, ref, sort)
+		}
+	}
+	return Select(c.heapCur(st, name, as), ref, sort)
 }
 
 func (c *Ctx) writeComp(st *State, name string, sort string, ref Term, v Term) {
@@ -230,7 +373,10 @@ func (c *Ctx) writeComp(st *State, name string, sort string, ref Term, v Term) {
 		st.Dirty[name] = true
 	}
 	a := c.heapCur(st, name, arrSort(SInt, sort))
-	c.heapSet(st, name, StoreT(a, ref, v))
+	prev := st.Log[name]
+	d := c.define(st, "H!"+name, StoreT(a, ref, v))
+	st.Heap[name] = d.S
+	st.Log[name] = &logNode{parent: prev, ref: ref, val: v, after: d.S, before: a.S}
 }
 
 // element arrays: Int -> (Int -> sort)
@@ -386,6 +532,8 @@ func (c *Ctx) alloc(st *State) Term {
 	st.AllocN++
 	r := c.define(st, "ref", Add(st.AllocBase, IntT(int64(st.AllocN))))
 	st.Fresh[r.S] = true
+	st.Seq++
+	st.FreshSeq[r.S] = st.Seq
 	return r
 }
 
@@ -395,6 +543,7 @@ func (c *Ctx) bumpAbove(st *State, r Term) {
 	st.assume(And(Ge(nb, Add(st.AllocBase, IntT(int64(st.AllocN)))), Ge(nb, r)))
 	st.AllocBase = nb
 	st.AllocN = 0
+	st.Seq++
 }
 
 // ---------------------------------------------------------------- prefixes
